@@ -51,6 +51,13 @@ CHECKS = {
   text="Every value kind (strings via 4 decode paths, mailboxes, flags, attributes, numbers, number sets of both flavours and '$', list nestings around the cap, streamed literals) over 15 byte-string classes x 8 lengths around 4096 under all 16 encoder modes, plus random compositions. Decides value equality modulo the documented canonicalisations, exact byte consumption, legal syntax for the mode, and refusal of unrepresentable values.",
   design_ref="DESIGN.md §3 C01",
   note="Sync literals use an already granted continuation request; 8-bit bytes in flags are not demanded to be refused."),
+
+ "C06": dict(
+  category="fault_enumeration",
+  technique="runtime fault injection: byte-offset faults (EOF, reset, write error) injected by the instrumented in-process connection under a real imapserver connection with a counting stub backend; hostile-input workers with a 64 MB stack bound; race detector on",
+  text="For each of 12 valid transcripts (sync and non-sync literals, AUTHENTICATE exchange, IDLE, STARTTLS, implicit TLS, pipelining, long FETCH literal) every client->server byte offset x {EOF, reset} and every server->client offset x {write error} is enumerated (quick: all offsets of 5 transcripts, every 7th of the rest); after each cut the server must close its side, call Session.Close exactly once, stop Idle, and log no panic. Plus mutated/garbage inputs, literal-cap probes (4096 / APPEND limit) and deep-nesting families to 4*10^5 levels.",
+  design_ref="DESIGN.md §3 C06",
+  note="Backstops (40 s) are orders of magnitude above observed latencies; only literals are subject to the 4096-byte cap; stalls (peer silent but connected) are outside the property."),
 }
 
 NOT_YET = "check not built yet in this round (planned in DESIGN.md §3; runtime monitoring applies)"
